@@ -1,7 +1,16 @@
 (* The two diagnostics options of the parser -- validation-error reporting (c_report) and
    fail-on-validation-error (c_fail) -- behave as documented.
-   Depends on Proofs/DiagBase.v, Proofs/DiagStep.v, Proofs/DiagRun.v (generic lock-step simulation
-   of two runs whose configurations differ only in these two options). *)
+
+   Files, in dependency order (compile each with `coqc -Q . Verif Proofs/<file>` from /verif/coq):
+     Proofs/DiagBase.v   definitions (with_report, with_fail, eqv), generic simulation of the host parsers
+     Proofs/DiagStep.v   generic lock-step simulation of `step` (one lemma per state)
+     Proofs/DiagRun.v    the same for run, BasicParser, Parse, UrlParse, ParseRef
+     Proofs/Diagnostics.v  (this file) the theorems T1-T9 as instances, examples, one refutation
+
+   The generic simulation relates a run under c1 with a run under c2 where c1 and c2 differ at most in
+   c_report/c_fail; it is parameterised by an invariant VR on the two lists of recorded errors, a
+   property EP of every returned error, a flag EANY (run 1 may stop where run 2 goes on) and a
+   predicate EV that run 2 keeps once run 1 has stopped. *)
 From Verif Require Import Lib.Base Lib.Utf8 Lib.GoStr Model.Cfg Gen.Tables Gen.Options Model.Sets Model.Percent
   Model.Url Model.Host Model.Machine Model.Api Proofs.DiagBase Proofs.DiagStep Proofs.DiagRun.
 
@@ -459,6 +468,29 @@ Print Assumptions recorded_entries_nonfatal_UrlParse.
 Print Assumptions recorded_entries_nonfatal_ParseRef.
 Print Assumptions recorded_entries_nonfatal_BasicParser.
 
+(* the two facts about parseIPv4Number (the one place where the error returned by handleError is
+   ignored) on which T7 rests; both are used inside the generic simulation (DiagBase.v,
+   ipv4_numbers_rel / endsInANumber_rel) and are restated here on their own *)
+Lemma endsInANumber_records_nothing c u input : fst (endsInANumber c u input) = u.
+Proof.
+  unfold endsInANumber.
+  set (parts := match last_opt (split 46 input) with
+                | Some [] => if (len (split 46 input) =? 1)%Z then [] else drop_last (split 46 input)
+                | _ => split 46 input end).
+  destruct (last_opt parts) as [[|x l]|]; try reflexivity.
+  destruct (all_in isDigit (x :: l)); [reflexivity|].
+  cbn [parseIPv4Number]. destruct (parseIPv4Number_nonempty (x :: l)); reflexivity.
+Qed.
+
+Lemma ipv4_numbers_empty_part_fails c u rest acc :
+  exists u' e, ipv4_numbers c u ([] :: rest) acc = Er u' e /\ e_type e = IPv4NonNumericPart /\ e_failure e = true.
+Proof.
+  cbn [ipv4_numbers parseIPv4Number]. rewrite handleError_eq. unfold herr. rewrite handleError_eq.
+  cbn [orb]. eexists. eexists. split; [reflexivity|split; reflexivity].
+Qed.
+Print Assumptions endsInANumber_records_nothing.
+Print Assumptions ipv4_numbers_empty_part_fails.
+
 (* ====================================================================================== *)
 (* T8: fail-on-validation-error is sound                                                    *)
 (* ====================================================================================== *)
@@ -536,6 +568,81 @@ Print Assumptions fail_sound_gen_ParseRef.
 Print Assumptions fail_sound.
 Print Assumptions fail_sound_UrlParse.
 Print Assumptions fail_sound_ParseRef.
+
+(* T8, sharper: with the same reporting option on both sides the fail-mode run and the default run
+   are IDENTICAL as long as the fail-mode run goes on: same next machine state, same returned URL
+   (a successful fail-mode run has not called handleError at all). *)
+Lemma eqv_verrs_eq u1 u2 : eqv u1 u2 -> u_verrs u1 = u_verrs u2 -> u1 = u2.
+Proof.
+  intros H HV. destruct (eqv_inv H) as (?&?&?&?&?&?&?&?&?&?&?&?&?&?&->&->). cbn in HV. subst. reflexivity.
+Qed.
+
+Section FailSoundEq.
+  Variable idna : str -> str * bool.
+  Variable c : cfg.
+
+  Let c1 := with_fail c true.
+  Let c2 := with_fail c false.
+
+  Definition veq : list verr -> list verr -> Prop := @eq (list verr).
+
+  Lemma fq_ag : cagree c1 c2. Proof. apply cagree_fails. Qed.
+  Lemma fq_EP : forall u t f e, snd (handleError c1 u t f) = Some e -> etrue (fst (handleError c1 u t f)) e.
+  Proof. intros; exact I. Qed.
+  Lemma fq_he : forall u1 u2 t f, UR veq u1 u2 ->
+    match snd (handleError c1 u1 t f), snd (handleError c2 u2 t f) with
+    | None, None => veq (u_verrs (fst (handleError c1 u1 t f))) (u_verrs (fst (handleError c2 u2 t f)))
+    | Some _, Some _ => True
+    | Some _, None => True /\ evtrue (u_verrs (fst (handleError c2 u2 t f)))
+    | None, Some _ => False
+    end.
+  Proof.
+    intros u1 u2 t f _. rewrite !handleError_snd. subst c1 c2. cbn [c_fail with_fail].
+    rewrite orb_true_r. destruct (f || false); [exact I|split; exact I].
+  Qed.
+
+  Lemma UR_veq u1 u2 : UR veq u1 u2 -> u1 = u2.
+  Proof. intros [H HV]. apply eqv_verrs_eq; assumption. Qed.
+
+  Theorem step_fail_sound inp base ov m :
+    (forall m', step idna c1 inp base ov m = Cont m' -> step idna c2 inp base ov m = Cont m') /\
+    (forall u, step idna c1 inp base ov m = RetUrl u -> step idna c2 inp base ov m = RetUrl u) /\
+    (forall u, step idna c1 inp base ov m = RetNilNil u -> step idna c2 inp base ov m = RetNilNil u) /\
+    (step idna c1 inp base ov m = Panic -> step idna c2 inp base ov m = Panic).
+  Proof.
+    assert (HM : MR veq m m) by (repeat split; reflexivity).
+    pose proof (@step_rel idna c1 c2 fq_ag veq etrue True evtrue fq_EP fq_he (evtrue_ev c2) inp base ov m m HM) as HO.
+    repeat split.
+    - intros m' E. rewrite E in HO. cbn in HO.
+      destruct (step idna c2 inp base ov m) as [m2| | | |]; try contradiction.
+      destruct m' as [a1 a2 a3 a4 a5 a6 a7 a8], m2 as [b1 b2 b3 b4 b5 b6 b7 b8].
+      destruct HO as (E1&E2&E3&E4&E5&E6&E7&HU). cbn in *. apply UR_veq in HU. subst. reflexivity.
+    - intros u E. rewrite E in HO. cbn in HO.
+      destruct (step idna c2 inp base ov m); try contradiction. apply UR_veq in HO. subst. reflexivity.
+    - intros u E. rewrite E in HO. cbn in HO.
+      destruct (step idna c2 inp base ov m); try contradiction. apply UR_veq in HO. subst. reflexivity.
+    - intros E. rewrite E in HO. exact HO.
+  Qed.
+
+  Theorem fail_sound_eq i u : Parse idna c1 i = PUrl u -> Parse idna c2 i = PUrl u.
+  Proof.
+    intros E.
+    pose proof (@Parse_rel idna c1 c2 fq_ag veq etrue True evtrue fq_EP fq_he (evtrue_ev c2) i eq_refl) as HP.
+    rewrite E in HP. cbn in HP. destruct (Parse idna c2 i); try contradiction.
+    apply UR_veq in HP. subst. reflexivity.
+  Qed.
+
+  Theorem fail_sound_eq_UrlParse b ref u : UrlParse idna c1 b ref = PUrl u -> UrlParse idna c2 b ref = PUrl u.
+  Proof.
+    intros E.
+    pose proof (@UrlParse_rel idna c1 c2 fq_ag veq etrue True evtrue fq_EP fq_he (evtrue_ev c2) b b ref eq_refl (eqv_refl b)) as HP.
+    rewrite E in HP. cbn in HP. destruct (UrlParse idna c2 b ref); try contradiction.
+    apply UR_veq in HP. subst. reflexivity.
+  Qed.
+End FailSoundEq.
+Print Assumptions step_fail_sound.
+Print Assumptions fail_sound_eq.
+Print Assumptions fail_sound_eq_UrlParse.
 
 (* ====================================================================================== *)
 (* T9: fail mode accepts exactly the inputs for which reporting mode records nothing         *)
@@ -685,14 +792,21 @@ Example ex_report :
 Proof. repeat split; vm_compute; reflexivity. Qed.
 
 (* T6: premise and conclusion on a concrete input; and the premise is needed *)
+Definition ex_e2 : verr :=
+  Eval vm_compute in match Parse idna0 default_cfg ex_i2 with PErr e => e | _ => Build_verr DomainToASCII false [] end.
+Definition ex_e1_fail : verr :=
+  Eval vm_compute in match Parse idna0 (with_fail default_cfg true) ex_i1 with PErr e => e | _ => Build_verr DomainToASCII true [] end.
+Definition ex_u3 : url :=
+  Eval vm_compute in match Parse idna0 (with_fail default_cfg true) ex_i3 with PUrl u => u | _ => empty_url [] end.
+
 Example ex_failure :
   c_fail default_cfg = false /\
-  exists e, Parse idna0 default_cfg ex_i2 = PErr e /\ e_type e = IPv4NonNumericPart /\ e_failure e = true.
-Proof. split; [reflexivity|]. eexists. repeat split; vm_compute; reflexivity. Qed.
+  Parse idna0 default_cfg ex_i2 = PErr ex_e2 /\ e_type ex_e2 = IPv4NonNumericPart /\ e_failure ex_e2 = true.
+Proof. repeat split; vm_compute; reflexivity. Qed.
 
 Example returned_error_is_failure_needs_premise :
-  exists e, Parse idna0 (with_fail default_cfg true) ex_i1 = PErr e /\ e_failure e = false.
-Proof. eexists. split; vm_compute; reflexivity. Qed.
+  Parse idna0 (with_fail default_cfg true) ex_i1 = PErr ex_e1_fail /\ e_failure ex_e1_fail = false.
+Proof. split; vm_compute; reflexivity. Qed.
 
 (* T7: entries are recorded, all of them non-fatal; and a fatal entry IS recorded on the record that a
    failed parse leaves behind (so the statement is about successful parses only) *)
@@ -704,29 +818,32 @@ Proof.
   vm_compute. repeat constructor.
 Qed.
 
+Definition ex_left_behind : url :=
+  Eval vm_compute in
+    match BasicParser idna0 (with_report default_cfg true) ex_i2 None None None with RErr u _ => u | _ => empty_url [] end.
 Example ex_fatal_recorded_on_failure :
-  exists u e, BasicParser idna0 (with_report default_cfg true) ex_i2 None None None = RErr u e /\
-              Exists (fun x => e_failure x = true) (u_verrs u).
-Proof. eexists. eexists. split; [vm_compute; reflexivity|]. vm_compute. repeat constructor. Qed.
+  BasicParser idna0 (with_report default_cfg true) ex_i2 None None None = RErr ex_left_behind ex_e2 /\
+  Exists (fun x => e_failure x = true) (u_verrs ex_left_behind).
+Proof. split; [vm_compute; reflexivity|]. vm_compute. repeat constructor. Qed.
 
 (* T8: fail mode accepts ex_i3; it rejects ex_i1, which the default parser accepts (no converse) *)
 Example ex_fail_sound :
-  (exists u, Parse idna0 (with_fail default_cfg true) ex_i3 = PUrl u) /\
-  (exists e, Parse idna0 (with_fail default_cfg true) ex_i1 = PErr e) /\
-  (exists u, Parse idna0 (with_fail default_cfg false) ex_i1 = PUrl u).
-Proof. repeat split; eexists; vm_compute; reflexivity. Qed.
+  Parse idna0 (with_fail default_cfg true) ex_i3 = PUrl ex_u3 /\
+  Parse idna0 (with_fail default_cfg true) ex_i1 = PErr ex_e1_fail /\
+  Parse idna0 (with_fail default_cfg false) ex_i1 = PUrl ex_u1_plain.
+Proof. repeat split; vm_compute; reflexivity. Qed.
 
 (* T9: both sides on an accepted and on a rejected input *)
 Example ex_fail_exact :
-  (exists u, Parse idna0 (with_fail (with_report default_cfg false) true) ex_i3 = PUrl u) /\
-  (exists u, Parse idna0 (with_fail (with_report default_cfg true) false) ex_i3 = PUrl u /\ u_verrs u = []) /\
-  (exists e, Parse idna0 (with_fail (with_report default_cfg false) true) ex_i1 = PErr e) /\
-  (exists u, Parse idna0 (with_fail (with_report default_cfg true) false) ex_i1 = PUrl u /\ u_verrs u <> []).
+  Parse idna0 (with_fail (with_report default_cfg false) true) ex_i3 = PUrl ex_u3 /\
+  (Parse idna0 (with_fail (with_report default_cfg true) false) ex_i3 = PUrl ex_u3 /\ u_verrs ex_u3 = []) /\
+  Parse idna0 (with_fail (with_report default_cfg false) true) ex_i1 = PErr ex_e1_fail /\
+  (Parse idna0 (with_fail (with_report default_cfg true) false) ex_i1 = PUrl ex_u1_report /\ u_verrs ex_u1_report <> []).
 Proof.
-  split; [eexists; vm_compute; reflexivity|].
-  split; [eexists; split; vm_compute; reflexivity|].
-  split; [eexists; vm_compute; reflexivity|].
-  exists ex_u1_report. split; [vm_compute; reflexivity|vm_compute; discriminate].
+  split; [vm_compute; reflexivity|].
+  split; [split; vm_compute; reflexivity|].
+  split; [vm_compute; reflexivity|].
+  split; [vm_compute; reflexivity|vm_compute; discriminate].
 Qed.
 
 (* the generated option records are the default record with one option switched on *)
